@@ -761,6 +761,20 @@ func (e *FEnc) evalCall(env *Env, x *Ex) (*Val, error) {
 			return v, nil
 		}
 		return nil, fmt.Errorf("unknown name result(%s): no such call on the way here", x.Args[0].Name)
+	case "captured": // captured(x): the variable x of the enclosing function that this function literal captured (never a local of the same name)
+		if len(x.Args) != 1 || x.Args[0].Op != "id" || env.st == nil {
+			return nil, fmt.Errorf("captured(name)")
+		}
+		for _, fv := range e.fn.FreeVars {
+			if fv.Name() == x.Args[0].Name {
+				v := e.valOf(fv)
+				if _, ok := fv.Type().Underlying().(*types.Pointer); ok {
+					return e.load(env.st, e.ptrOf(v)), nil
+				}
+				return v, nil
+			}
+		}
+		return nil, fmt.Errorf("unknown name captured(%s): the function captures no such variable", x.Args[0].Name)
 	case "ncalls": // ncalls("pkg.Type.Method"): the number of calls to that callee executed on the way to this point
 		if len(x.Args) != 1 || x.Args[0].Op != "str" || env.st == nil {
 			return nil, fmt.Errorf("ncalls(\"callee name\")")
